@@ -192,6 +192,13 @@ def _exec_wide(args):
             vv = sorted(vals) if len(vals) % 2 == 0 else sorted(vals)[:-1]
             if vv:
                 out.append(x_store.observe(fx, np, (s, w, f), (r, o), vv, ac, ar, props, True, {'sorted': True}))
+        # Python integers whose scaled value sits exactly at / next to the 64-bit machine boundaries (flags and sides of C04 / C02 / C01)
+        if pid in ('C04', 'C01', 'C02') and 0 <= f <= 60 and rng.random() < 0.4:
+            edge = [(1 << (63 - f)), (1 << (63 - f)) - 1, (1 << (63 - f)) + 1, -(1 << (63 - f)), -(1 << (63 - f)) - 1, (1 << (64 - f)), (1 << (64 - f)) - 1,
+                    -(1 << (64 - f)), (1 << 70) + 5, -(1 << 70) - 5]
+            out.append(x_store.observe(fx, np, (s, w, f), (r, o), [F(i) for i in edge], 'pyint', rng.choice(sroutes), props, False, {'bigint': True}))
+            out.append(x_store.observe(fx, np, (s, w, f), (r, o), [F(i) for i in edge[:6]], rng.choice(['list', 'tuple']), rng.choice(['ctor', 'call', 'set_val']), props, True,
+                                       {'bigint': True}) if False else None)
         # floats of any finite magnitude under saturate with n_frac >= 0 (C01 domain extension)
         if pid == 'C01' and f >= 0 and rng.random() < 0.3:
             big = [F(rng.choice([-1, 1]) * rng.getrandbits(53) * 2 ** rng.randint(10, 960)) for _ in range(4)]
